@@ -59,6 +59,62 @@ theorem C12_processed_block_refused_again (me : Nat) (n : Node) (b b' : Block) (
   rw [heq, commit_reg]
   simpa [commitReg] using hle
 
+/-- The stored marker never goes back, whatever block is delivered — with or without events (an EMPTY,
+    progress-only block is a block like any other: refused unless its number is above the marker), whatever the
+    events do, refused, panicking or processed. -/
+theorem C12_marker_monotone (me : Nat) (n : Node) (b : Block) :
+    n.reg.db.marker.getD 0 ≤ (applyBlock me n b).1.reg.db.marker.getD 0 ∧
+    ((applyBlock me n b).2.1 = .ok → (applyBlock me n b).1.reg.db.marker = some b.number ∧ n.reg.db.marker.getD 0 < b.number) := by
+  cases hs : (applyBlock me n b).2.1 with
+  | ok =>
+    obtain ⟨hinf, _, heq⟩ := applyBlock_ok_eq me n b hs
+    have hlt : n.reg.db.marker.getD 0 < b.number := by
+      simp only [inferior, decide_eq_false_iff_not, ge_iff_le, Nat.not_le] at hinf; exact hinf
+    have hm : (applyBlock me n b).1.reg.db.marker = some b.number := by rw [heq, commit_reg]; rfl
+    exact ⟨by rw [hm]; simp; omega, fun _ => ⟨hm, hlt⟩⟩
+  | refused =>
+    refine ⟨?_, fun h => by cases h⟩
+    simp only [applyBlock] at hs ⊢
+    by_cases hi : inferior n b = true
+    · simp [hi]
+    · simp only [hi, Bool.false_eq_true, ↓reduceIte] at hs
+      split at hs <;> simp at hs
+  | panicked =>
+    refine ⟨?_, fun h => by cases h⟩
+    simp only [applyBlock] at hs ⊢
+    by_cases hi : inferior n b = true
+    · simp [hi] at hs
+    · simp only [hi, Bool.false_eq_true, ↓reduceIte] at hs ⊢
+      split at hs
+      · rename_i hp
+        simp only [hp, ↓reduceIte]
+        have : (beginTxn (runEvents me b.number (beginTxn n) b.events).1).reg.db = n.reg.db := by
+          show (runEvents me b.number (beginTxn n) b.events).1.reg.db = n.reg.db
+          rw [runEvents_eq_runMacro, runMacro_db _ _ (eventsMacros_handler me b.number _ b.events)]; rfl
+        rw [this]; exact Nat.le_refl _
+      · simp at hs
+
+/-- over a whole stream the marker only grows -/
+theorem C12_marker_monotone_run (me : Nat) (n : Node) (bs : List Block) :
+    n.reg.db.marker.getD 0 ≤ (run me n bs).1.reg.db.marker.getD 0 := by
+  induction bs generalizing n with
+  | nil => exact Nat.le_refl _
+  | cons b bs ih =>
+    have h1 := (C12_marker_monotone me n b).1
+    simp only [run]
+    cases hs : (applyBlock me n b).2.1 with
+    | ok => simp only []; exact Nat.le_trans h1 (ih _)
+    | refused => exact h1
+    | panicked => exact h1
+
+/-- empty blocks below / at / above the marker -/
+example :
+    let n := (run 1 init [⟨5, [.operatorAdded 1 1 1]⟩]).1
+    (applyBlock 1 n ⟨3, []⟩).2.1 = .refused ∧ (applyBlock 1 n ⟨5, []⟩).2.1 = .refused ∧
+    (applyBlock 1 n ⟨3, []⟩).1 = n ∧
+    (applyBlock 1 n ⟨6, []⟩).2.1 = .ok ∧ (applyBlock 1 n ⟨6, []⟩).1.reg.db.marker = some 6 ∧
+    (run 1 n [⟨3, []⟩, ⟨5, [.operatorAdded 1 1 1]⟩]).1 = n := by decide
+
 example : (applyBlock 1 (run 1 init [⟨5, [.operatorAdded 1 1 1]⟩]).1 ⟨5, [.operatorAdded 2 1 2]⟩).2.1 = .refused ∧
     (applyBlock 1 init ⟨0, [.operatorAdded 2 1 2]⟩).2.1 = .refused := by decide
 
